@@ -11,7 +11,7 @@ RULE = ("reader: random acyclic bench line lists (1-4 INPUT, 0-2 DFF incl. DFF f
         "dialect in upper and lower case, BUF/BUFF, operands repeated 2-3 times, OUTPUT of any net incl. inputs) shuffled into any line order, "
         "rendered with random blanks/tabs/newlines wherever the scan patterns allow them, comment and empty lines; a malformed stream "
         "(unknown or mixed-case gate, undefined operand/output, nets defined twice, BUF with two operands, empty or digit-initial operands, "
-        "DFF with two operands); writer/round trip: random lint-clean DAGs with and without constant nodes, outputs that are inputs, one "
+        "DFF with two operands); comment lines and trailing comments incl. commented-out statements; writer/round trip: circuit names that look like statements,  random lint-clean DAGs with and without constant nodes, outputs that are inputs, one "
         "circuit per gate type x arity 1..4, plus circuits outside the guard (x constant, blackbox, no input); "
         "non-trivial = at least one gate line / gate node; distinct = canonical input hash")
 EXPLANATION = ("line-AST reader/writer models mirrored on the construction API, proved to denote the bench equations (closed form), tied to io.py by "
@@ -131,6 +131,11 @@ def ws(rng, nl=False):
     return "\n"
 
 
+# comment texts: statements of the dialect over fresh and over used names must be ignored
+COMMENTS = ["comment", " 5 inputs", "INPUT(zz_c)", "OUTPUT(zz_c)", "zz_c = AND(a, b)", "a = NOT(a)", "n0 = DFF(n1)", "input(a)", "b = XOR(b, b)",
+            " g = BUFF(zz_c) # x", "OUTPUT(a)", "q = dff(q)"]
+
+
 def render(rng, lines):
     """text of a line list; blanks only where the dialect (the scan patterns) allows them: around '=', around the name of an
     INPUT/OUTPUT line and before its parenthesis, anywhere inside an operand list (blank, tab, newline)"""
@@ -148,13 +153,15 @@ def render(rng, lines):
             s = l[1] + (" = " if plain else w(True) + "=" + w(True)) + l[2] + "(" + ops + ")"
         else:
             s = l[1] + (" = " if plain else w(True) + "=" + w(True)) + rng.choice(["DFF", "dff"]) + "(" + w(True) + l[2] + w(True) + ")"
+        if rng.random() < 0.06:
+            s += rng.choice([" ", "\t", ""]) + "#" + rng.choice(COMMENTS)      # trailing comment
         out.append(s)
         r = rng.random()
         if not plain and r < 0.08:
             out.append("")
-        elif not plain and r < 0.14:
-            out.append("# comment " + str(len(out)))
-    head = "# " + rng.choice(["c17", "top", "bench 1"]) + "\n" if rng.random() < 0.5 else ""
+        elif r < 0.2:
+            out.append(rng.choice(["#", "# ", "\t#"]) + rng.choice(COMMENTS))    # comment line, often a commented-out statement
+    head = "# " + rng.choice(["c17", "top", "bench 1", "INPUT(zz_h)", "a = OR(a, a)"]) + "\n" if rng.random() < 0.5 else ""
     sep = "\n" if rng.random() < 0.9 else rng.choice(["\r\n", " \n", "\n\n"])
     return head + sep.join(out) + ("\n" if rng.random() < 0.5 else "")
 
@@ -174,6 +181,11 @@ def gen_circuit(rng, tier):
         d["nodes"].append([nm, "x", True, []])
     if kind == "blackbox":
         d = lib.add_flop(rng, d)
+    if rng.random() < 0.25:      # the writer puts the name into a comment line
+        ins = [n[0] for n in d["nodes"] if n[1] == "input"] or ["a"]
+        gs = [n[0] for n in d["nodes"] if n[1] != "input"] or ["g"]
+        d["name"] = rng.choice(["INPUT(zz_n)", "OUTPUT(%s)" % ins[0], "%s = AND(%s, %s)" % (gs[0], ins[0], ins[-1]), "zz_n = NOT(%s)" % ins[0],
+                                "%s = DFF(%s)" % (gs[-1], ins[0]), "c17 # x", "input(%s)" % gs[0]])
     if kind == "no_input":
         ins = {n[0] for n in d["nodes"] if n[1] == "input"}
         consts = [n[0] for n in d["nodes"] if n[1] in ("0", "1")]
@@ -327,6 +339,8 @@ def classify(case, obs):
                     ks.append("read:upper-case")
             elif l[0] == "D":
                 ks.append("read:dff")
+        if "#" in case["text"]:
+            ks.append("read:comments")
         pos = {l[1]: i for i, l in enumerate(case["lines"]) if l[0] in ("I", "G", "D")}
         if any(l[0] == "D" and l[2] in pos and any(m[0] == "D" and m[1] == l[2] and pos[m[1]] > pos[l[1]] for m in case["lines"]) for l in case["lines"]):
             ks.append("read:dff-fed-by-later-dff")
@@ -334,6 +348,8 @@ def classify(case, obs):
             ks.append("read:output-before-definition")
         return sorted(set(ks))
     ks = ["round:" + case["kind"], "round-outcome:" + (obs.get("wexc") and "writer-" + obs["wexc"] or obs.get("exc") or "ok")]
+    if case["circuit"].get("name") != "top":
+        ks.append("round:name-like-statement")
     for n in case["circuit"]["nodes"]:
         if n[1] in lib.GATES:
             ks.append(f"round-gate:{n[1]}/{min(len(n[3]), 4)}")
